@@ -477,6 +477,10 @@ impl Oracle {
 // ---------------------------------------------------------------- generator
 fn gen_len(rng: &mut Rng, free: usize) -> usize {
     // free = bytes left for a new entry's value after its 12-byte header (may be "negative" = 0)
+    if free > 300 && rng.chance(2, 3) {
+        // large slabs: lengths around the u8 / u16 limits
+        return *rng.pick(&[254usize, 255, 256, 257, 65523, 65524, 65534, 65535, 65536, 65537, 65548]);
+    }
     match rng.below(12) {
         0 => 0,
         1 | 2 => free,
@@ -539,6 +543,7 @@ pub fn gen_op(rng: &mut Rng, o: &Oracle, fail_bias: bool) -> Op {
             let old = o.find(t, rep).map(|i| o.es[i].1.len()).unwrap_or(0);
             let free = o.free();
             let len = match rng.below(12) {
+                _ if free > 300 && rng.chance(1, 2) => *rng.pick(&[255usize, 256, 257, 65535, 65536, 65537, old + 256, old + 65536, old.saturating_sub(256), old.saturating_sub(65536)]),
                 0 => 0,
                 1 => old,
                 2 => old + 1,
@@ -585,6 +590,9 @@ pub fn gen_op(rng: &mut Rng, o: &Oracle, fail_bias: bool) -> Op {
 }
 
 // ---------------------------------------------------------------- monitor
+fn hex_cap(b: &[u8]) -> String {
+    if b.len() > 4096 { format!("{}... ({} bytes in all)", emit::hex(&b[..4096]), b.len()) } else { emit::hex(b) }
+}
 pub struct Mon<'a> {
     pub rep: &'a mut Report,
     pub prop: &'a str,
@@ -638,14 +646,14 @@ impl<'a> Mon<'a> {
                 self.rep.violate(
                     &format!("failed-op-changed-bytes:{}", op_name(op)),
                     "a failed TLV mutation changed the buffer",
-                    ctx(serde_json::json!({"before": emit::hex(before), "after": emit::hex(buf)})),
+                    ctx(serde_json::json!({"before": hex_cap(before), "after": hex_cap(buf)})),
                 );
             }
             if self.prop == "C04" && open_view(buf, View::Borrowed) != Res::Ok(()) {
                 self.rep.violate(
                     &format!("failed-op-unreadable:{}", op_name(op)),
                     "after a failed TLV mutation the buffer no longer opens",
-                    ctx(serde_json::json!({"after": emit::hex(buf)})),
+                    ctx(serde_json::json!({"after": hex_cap(buf)})),
                 );
             }
         }
@@ -667,6 +675,58 @@ impl<'a> Mon<'a> {
         }
         // a failed PackVar may legitimately have changed the slot: resynchronise the oracle's view
         // of that slot is done by the caller.
+        // --- large slabs / thousands of entries: a lean version of the checks below (the full one is quadratic)
+        if buf.len() > 8192 || o.es.len() > 300 {
+            let want = o.render();
+            if buf[..] != want[..] {
+                let first = buf.iter().zip(want.iter()).position(|(a, b)| a != b).unwrap_or(0);
+                let lo = first.saturating_sub(16);
+                let hi = (first + 48).min(buf.len());
+                self.rep.violate(
+                    &format!("large-slab-bytes:{}", op_name(op)),
+                    "slab bytes differ from the independent encoding of the logical entry list (large slab / many entries)",
+                    ctx(serde_json::json!({"first_differing_offset": first, "slab_window": emit::hex(&buf[lo..hi]), "expected_window": emit::hex(&want[lo..hi]), "window_starts_at": lo, "entries": o.es.len()})),
+                );
+                return;
+            }
+            if self.prop == "C01" {
+                let ds = discs_view(buf, View::Borrowed);
+                if ds.clone().map(|d| d.len()) != Res::Ok(o.es.len()) {
+                    self.rep.violate("order", "listed types differ from insertion order (many entries)", ctx(serde_json::json!({"listed": format!("{:?}", ds.map(|d| d.len())), "expected": o.es.len()})));
+                }
+                // offsets and repetition numbers of a sample of entries
+                let mut offs = Vec::with_capacity(o.es.len());
+                let mut reps = Vec::with_capacity(o.es.len());
+                let mut cnt = [0usize; 8];
+                let mut off = 12usize;
+                for (t, v) in &o.es {
+                    offs.push(off);
+                    reps.push(cnt[*t]);
+                    cnt[*t] += 1;
+                    off += 12 + v.len();
+                }
+                let ne = o.es.len();
+                let mut sample: Vec<usize> = vec![0, 1, 254, 255, 256, 257, 1023, 1024, 1025, 4095, 4096, 65535, 65536, ne.saturating_sub(2), ne.saturating_sub(1)];
+                sample.retain(|i| *i < ne);
+                for i in sample {
+                    let (t, v) = &o.es[i];
+                    for view in [View::Mut, View::Borrowed, View::Owned] {
+                        let g = get_bytes_view(buf, *t, reps[i], view);
+                        let good = match &g { Res::Ok((goff, gv)) => *goff == offs[i] && gv.len() == v.len() && gv[..] == v[..], _ => false };
+                        if !good {
+                            self.rep.violate(&format!("read-back:{}", op_name(op)), "an entry read back by type and repetition differs from the last value written (many entries / large slab)",
+                                ctx(serde_json::json!({"view": format!("{:?}", view), "tag": t, "rep": reps[i], "entry_index": i, "expected_offset": offs[i], "expected_len": v.len()})));
+                        }
+                    }
+                }
+                for t in 0..NTAGS {
+                    if !get_bytes_view(buf, t, cnt[t], View::Borrowed).is_err() {
+                        self.rep.violate("phantom-entry", "a lookup beyond the last repetition of a type succeeded", ctx(serde_json::json!({"tag": t, "rep": cnt[t]})));
+                    }
+                }
+            }
+            return;
+        }
         // --- C03: canonical bytes
         if self.prop == "C03" {
             let want = o.render();
@@ -674,7 +734,7 @@ impl<'a> Mon<'a> {
                 self.rep.violate(
                     &format!("non-canonical:{}", op_name(op)),
                     "slab bytes differ from the independent encoding of the logical entry list (type, LE length, value, zero tail)",
-                    ctx(serde_json::json!({"slab": emit::hex(buf), "expected": emit::hex(&want)})),
+                    ctx(serde_json::json!({"slab": hex_cap(buf), "expected": hex_cap(&want)})),
                 );
             }
         }
@@ -738,12 +798,18 @@ pub struct HistOut {
 }
 
 pub fn run_history(rep: &mut Report, prop: &str, rng: &mut Rng, n: usize, nops: usize, to_coq: bool, scripted: Option<&[Op]>) {
+    run_history_from(rep, prop, rng, Oracle { n, es: vec![] }, nops, to_coq, scripted)
+}
+/// a history that starts from the canonical slab of `init` (built directly, not through the API)
+pub fn run_history_from(rep: &mut Report, prop: &str, rng: &mut Rng, init: Oracle, nops: usize, to_coq: bool, scripted: Option<&[Op]>) {
+    let n = init.n;
+    let to_coq = to_coq && init.es.is_empty();
     // the slab sits at offset 0..7 from an 8-byte aligned address
     static SHIFT: std::sync::atomic::AtomicUsize = std::sync::atomic::AtomicUsize::new(0);
     let shift = SHIFT.fetch_add(1, std::sync::atomic::Ordering::Relaxed) % 8;
-    let mut shifted = emit::Shifted::new(&vec![0u8; n], shift);
+    let mut shifted = emit::Shifted::new(&init.render(), shift);
     let buf: &mut [u8] = shifted.bytes_mut();
-    let mut o = Oracle { n, es: vec![] };
+    let mut o = init;
     let mut items: Vec<String> = Vec::new();
     let mut ops_done: Vec<Op> = Vec::new();
     let fail_bias = prop == "C04";
@@ -993,6 +1059,102 @@ pub fn huge_length_scenario(rep: &mut Report) {
     unsafe { std::alloc::dealloc(p, layout) };
 }
 
+/// a type whose `SPL_DISCRIMINATOR_SLICE` was (legally) overridden with other bytes: the on-wire
+/// type must still be `SPL_DISCRIMINATOR`
+pub struct OddSlice;
+impl SplDiscriminate for OddSlice {
+    const SPL_DISCRIMINATOR: ArrayDiscriminator = ArrayDiscriminator::new(TAGS[3]);
+    const SPL_DISCRIMINATOR_SLICE: &'static [u8] = &[0x99, 0x98, 0x97, 0x96, 0x95, 0x94, 0x93, 0x92];
+}
+#[derive(Clone, Copy, Default, bytemuck::Pod, bytemuck::Zeroable)]
+#[repr(transparent)]
+pub struct OddSliceVal(pub [u8; 3]);
+impl SplDiscriminate for OddSliceVal {
+    const SPL_DISCRIMINATOR: ArrayDiscriminator = ArrayDiscriminator::new(TAGS[2]);
+    const SPL_DISCRIMINATOR_SLICE: &'static [u8] = &[0x89, 0x88, 0x87, 0x86, 0x85, 0x84, 0x83, 0x82];
+}
+pub fn override_slice_scenario(rep: &mut Report) {
+    let mut buf = vec![0u8; 64];
+    let r = catch(|| -> Result<(), ProgramError> {
+        let mut st = TlvStateMut::unpack(&mut buf)?;
+        st.alloc::<OddSlice>(2, false)?;
+        st.init_value::<OddSliceVal>(false)?;
+        st.get_first_bytes::<OddSlice>()?;
+        st.get_first_value::<OddSliceVal>()?;
+        Ok(())
+    });
+    rep.count("override-slice-constant");
+    rep.monitor_runs += 1;
+    let mut want = vec![];
+    want.extend_from_slice(&TAGS[3]);
+    want.extend_from_slice(&2u32.to_le_bytes());
+    want.extend_from_slice(&[0, 0]);
+    want.extend_from_slice(&TAGS[2]);
+    want.extend_from_slice(&3u32.to_le_bytes());
+    want.extend_from_slice(&[0, 0, 0]);
+    want.resize(64, 0);
+    if r != Res::Ok(()) || buf != want {
+        rep.violate("override-slice-constant", "an entry's on-wire type must be the type's SPL_DISCRIMINATOR even when the type overrides SPL_DISCRIMINATOR_SLICE",
+            serde_json::json!({"result": format!("{:?}", r), "bytes": emit::hex(&buf), "expected": emit::hex(&want)}).to_string());
+    }
+}
+
+/// one operation on a slab that is valid but carries garbage after its terminator (a recycled
+/// buffer): resized values are still zero-extended / truncated, every listed entry keeps its bytes,
+/// a failed operation changes nothing.  Checked with an independent walk over the raw bytes, since
+/// the garbage may legitimately end up right behind the last entry.
+pub fn dirty_tail_scenario(rep: &mut Report, prop: &str, rng: &mut Rng) {
+    let ne = rng.range(1, 5) as usize;
+    let es: Vec<(usize, Vec<u8>)> = (0..ne).map(|_| { let l = rng.below(12) as usize; (rng.below(NTAGS as u64) as usize, rng.bytes(l)) }).collect();
+    let used: usize = es.iter().map(|(_, v)| 12 + v.len()).sum();
+    let slack = 8 + rng.range(1, 40) as usize;
+    let mut o = Oracle { n: used + slack, es };
+    let mut buf = o.render();
+    for x in buf[used + 8..].iter_mut() {
+        *x = rng.range(1, 255) as u8;
+    }
+    let before = buf.clone();
+    let i = rng.below(ne as u64) as usize;
+    let t = o.es[i].0;
+    let r = o.es[..i].iter().filter(|(k, _)| *k == t).count();
+    let old = o.es[i].1.len();
+    let op = match rng.below(4) {
+        0 => Op::Write { t, rep: r, seed: rng.byte() },
+        1 => Op::Realloc { t, len: rng.below(old as u64 + 1) as usize, rep: r },
+        _ => Op::Realloc { t, len: old + rng.range(1, slack as u64 + 3) as usize, rep: r },
+    };
+    let expect = o.apply(&op);
+    let got = apply_op(&mut buf, &op);
+    rep.count(&format!("dirty-tail:{}:{}", op_name(&op), got.kind()));
+    rep.monitor_runs += 1;
+    let det = |what: &str, after: &[u8]| serde_json::json!({"what": what, "before": emit::hex(&before), "op": format!("{:?}", op), "observed": format!("{:?}", got), "after": emit::hex(after)}).to_string();
+    let class = if prop == "C04" { "dirty-tail-failed-op" } else { "dirty-tail" };
+    match (&expect, &got) {
+        (_, Res::Panic(_)) => rep.violate("dirty-tail-panic", "a TLV mutation panicked on a valid slab with garbage behind its terminator", det("panic", &buf)),
+        (None, Res::Err(_)) => {
+            if buf != before {
+                rep.violate(class, "a failed operation changed the bytes (slab with garbage behind its terminator)", det("failed op changed bytes", &buf));
+            }
+        }
+        (Some(_), Res::Ok(_)) => {
+            // raw walk over the expected entries
+            let mut off = 0usize;
+            let mut ok = true;
+            for (k, v) in &o.es {
+                if buf.len() < off + 12 + v.len() || buf[off..off + 8] != TAGS[*k] || buf[off + 8..off + 12] != (v.len() as u32).to_le_bytes() || buf[off + 12..off + 12 + v.len()] != v[..] {
+                    ok = false;
+                    break;
+                }
+                off += 12 + v.len();
+            }
+            if !ok {
+                rep.violate(class, "after an operation on a slab with garbage behind its terminator the entries are not the expected ones (resized value zero-extended / truncated, all others byte-identical)", det("entries", &buf));
+            }
+        }
+        _ => rep.violate(class, "operation result differs from the entry-list semantics (slab with garbage behind its terminator)", det("result", &buf)),
+    }
+}
+
 pub fn run(ctx: &Ctx, prop: &str) -> Report {
     let mut rep = Report::new(prop);
     rep.corr_module = "Tlv".into();
@@ -1011,6 +1173,61 @@ pub fn run(ctx: &Ctx, prop: &str) -> Report {
     }
     if prop == "C04" {
         huge_length_scenario(&mut rep);
+    }
+    // sizes and counts that cross the u8 / u16 limits (monitor only: too large to evaluate in Coq)
+    for k in 0..ctx.scale(40, 500) {
+        let n = *rng.pick(&[66_000usize, 70_000, 131_200, 140_000, 66_000 + (k % 13) as usize]);
+        let nops = rng.range(3, 10) as usize;
+        run_history(&mut rep, prop, &mut rng, n, nops, false, None);
+        rep.count("history:large-slab");
+    }
+    // slabs above 10 MiB / 16 MiB with one entry longer than that
+    for (n, l) in [(10 * 1024 * 1024 + 4096usize, 10 * 1024 * 1024 + 1usize), ((1usize << 24) + 4096, (1usize << 24) + 1)] {
+        let ops = vec![
+            Op::Alloc { t: 0, len: l, allow: false },
+            Op::Write { t: 0, rep: 0, seed: 3 },
+            Op::Alloc { t: 1, len: 5, allow: false },
+            Op::Write { t: 1, rep: 0, seed: 4 },
+            Op::Realloc { t: 0, len: l + 7, rep: 0 },
+            Op::Realloc { t: 0, len: l - 2, rep: 0 },
+            Op::Alloc { t: 2, len: 1, allow: true },
+        ];
+        run_history(&mut rep, prop, &mut rng, n, 0, false, Some(&ops));
+        rep.count("history:>10MiB-slab");
+    }
+    // thousands of entries (counts across 2^8, 2^10, 2^12, 2^16), then operations on early and late ones
+    for count in [1100usize, 4200, 66_000] {
+        let es: Vec<(usize, Vec<u8>)> = (0..count).map(|i| (if i % 97 == 5 { 1 } else { 0 }, vec![(i % 251) as u8])).collect();
+        let used: usize = es.iter().map(|(_, v)| 12 + v.len()).sum();
+        let init = Oracle { n: used + 64, es };
+        let zeros_of_t0 = init.count(0);
+        let ops = vec![
+            Op::Realloc { t: 0, len: 9, rep: 3 },
+            Op::Write { t: 0, rep: zeros_of_t0 - 1, seed: 77 },
+            Op::Write { t: 0, rep: 1024, seed: 78 },
+            Op::Realloc { t: 0, len: 0, rep: 1 },
+            Op::Realloc { t: 1, len: 4, rep: 2 },
+            Op::Write { t: 0, rep: 255, seed: 79 },
+            Op::Alloc { t: 3, len: 2, allow: false },
+        ];
+        run_history_from(&mut rep, prop, &mut rng, init, 0, false, Some(&ops));
+        rep.count("history:thousands-of-entries");
+    }
+    override_slice_scenario(&mut rep);
+    for _ in 0..ctx.scale(400, 4000) {
+        dirty_tail_scenario(&mut rep, prop, &mut rng);
+    }
+    {
+        // more than 256 entries of one type: repetition numbers 255, 256, 257 must address the right entry
+        let mut ops: Vec<Op> = (0..300).map(|i| Op::Alloc { t: if i % 50 == 7 { 1 } else { 0 }, len: 1, allow: true }).collect();
+        for r in [254usize, 255, 256, 257, 293, 294] {
+            ops.push(Op::Write { t: 0, rep: r, seed: (r % 251) as u8 + 1 });
+        }
+        ops.push(Op::Realloc { t: 0, len: 3, rep: 256 });
+        ops.push(Op::Realloc { t: 0, len: 0, rep: 255 });
+        ops.push(Op::Write { t: 0, rep: 257, seed: 9 });
+        run_history(&mut rep, prop, &mut rng, 13 * 300 + 40, 0, false, Some(&ops));
+        rep.count("history:300-entries");
     }
     let n_coq = ctx.scale(2000, 30000);
     for i in 0..n_coq {
